@@ -25,7 +25,9 @@ def event_seq_read(f):
 
 
 def crate_fns_all(P):
-    return [g for g in P.fns.values() if g.crate == 'rip_tui']
+    # the state side of the crate (constructors, fold, frame window, summaries); the renderers size their buffers by
+    # terminal dimensions, which are not settings of the fold
+    return [g for g in P.fns.values() if g.crate == 'rip_tui' and re.match(r'^(<.* as )?rip_tui::(state|frame_store|summary)::', g.path)]
 
 
 def counter_step(g, b):
@@ -279,7 +281,7 @@ def run(ctx):
 
 
     # ---------------------------------------------------------------- C20.7
-    ctx.rule('C20.7', 'memory follows the frames held, not the configured cap: no function of rip_tui (constructors, fold, accessors, renderers) sizes an allocation (with_capacity / reserve / resize / repeat / vec![_; n]) by a value that is not a constant, a length of something already held, a 16-bit terminal dimension, or a min() with a constant. The caps are limits ("all capacity settings", usize::MAX = keep everything): pre-allocating them crashes or exhausts memory before the first frame.')
+    ctx.rule('C20.7', 'memory follows the frames held, not the configured cap: no function of the state side of rip_tui (constructors, fold, frame window, summaries) sizes an allocation (with_capacity / reserve / resize / repeat / vec![_; n]) by a value that is not a constant, a length of something already held, a 16-bit terminal dimension, or a min() with a constant. The caps are limits ("all capacity settings", usize::MAX = keep everything): pre-allocating them crashes or exhausts memory before the first frame.')
     SIZED = r'::(with_capacity|with_capacity_in|reserve|reserve_exact|resize|resize_with|from_elem|repeat)$'
     n7 = 0
     for g in crate_fns_all(P):
@@ -308,8 +310,8 @@ def run(ctx):
                    '%s is sized by a bounded value' % s_.name if not unb else
                    '%s is sized by %s: a large cap ("keep everything") or a frame-supplied number allocates up front — capacity overflow panic / allocation failure before a frame is folded' % (
                        s_.name, 'parameter `%s`' % g.lname(unb[0][1]) if unb[0][0] == 'param' else str(unb[0][1]).rsplit('::', 1)[-1]), line=s_.line)
-    ctx.ob('C20.7', 'rip_tui', 'allocations-scanned', True, '%d size-parameterised allocation site(s) in %d functions of rip_tui' % (n7, len(crate_fns_all(P))))
-    ctx.floor('C20.7', 'functions of rip_tui scanned for sized allocations', len(crate_fns_all(P)), 60)
+    ctx.ob('C20.7', 'rip_tui', 'allocations-scanned', True, '%d size-parameterised allocation site(s) in %d state-side functions of rip_tui' % (n7, len(crate_fns_all(P))))
+    ctx.floor('C20.7', 'state-side functions of rip_tui scanned for sized allocations', len(crate_fns_all(P)), 30)
 
     # ---------------------------------------------------------------- C20.5
     ctx.rule('C20.5', 'the frame window is bounded by its own length: in FrameStore::push the push into the frame deque is dominated by a comparison of that deque\'s len() with the configured cap, and the "full" edge of that comparison passes a pop before the push. A cap enforced through seq arithmetic (offset from base_seq) instead of the length stops evicting as soon as seqs repeat, go backwards or come from several streams.')
